@@ -661,6 +661,44 @@ where
                     blocks_value
                 );
             }
+            // the hidden entry point Deserialize::deserialize_in_place on an existing, *shared* Arc: the result must
+            // again be a fresh sole owner; the other owners keep their allocation, one reference lighter
+            {
+                let keep = shadow::tracked(|| a.clone());
+                let mut place = shadow::tracked(|| a.clone());
+                let before = Arc::count(&keep);
+                let r = shadow::tracked(|| <Arc<T> as Deserialize>::deserialize_in_place(mk(), &mut place));
+                ensure!(r.is_ok(), "C17", "serde", "{}: deserialize_in_place into an Arc failed although T deserialises", name);
+                ensure!(
+                    *place == *v && place.is_unique() && place.heap_ptr() != keep.heap_ptr(),
+                    "C17",
+                    "serde",
+                    "{}: deserialize_in_place into a shared Arc did not produce a fresh sole owner (count {}, same allocation: {})",
+                    name,
+                    Arc::count(&place),
+                    place.heap_ptr() == keep.heap_ptr()
+                );
+                ensure!(
+                    Arc::count(&keep) == before - 1 && *keep == *v,
+                    "C17,C04",
+                    "serde",
+                    "{}: after deserialize_in_place the previous allocation reports count {} (expected {})",
+                    name,
+                    Arc::count(&keep),
+                    before - 1
+                );
+                let mut up = shadow::tracked(|| UniqueArc::<T>::deserialize(mk())).ok();
+                if let Some(up) = up.as_mut() {
+                    let r = shadow::tracked(|| <UniqueArc<T> as Deserialize>::deserialize_in_place(mk(), up));
+                    ensure!(r.is_ok() && **up == *v, "C17", "serde", "{}: deserialize_in_place into a UniqueArc gave a different value", name);
+                }
+                shadow::tracked(|| {
+                    drop(up);
+                    drop(place);
+                    drop(keep);
+                });
+                st.counts.bump("serde.de_in_place");
+            }
             st.counts.bump("serde.de_ok");
         }
         (Err(e), Err(ea), Err(eu)) => {
